@@ -952,4 +952,499 @@ theorem refInv : ∀ fuel, RefInv fuel
                   simp only [St.pop, List.tail_cons]
                   refine ⟨?_, ?_, ?_, ?_, ⟨?_, ?_, ?_⟩⟩ <;> simp [PRes.outcome]
 
+/-! ## `leInv`: no block of the stack gains a name except the current one -/
+
+/-- every name of `b'` is a name of `b` (variables and functions) -/
+def BlockLE (b' b : Block) : Prop :=
+  (∀ x, (aget x b'.vars).isSome → (aget x b.vars).isSome) ∧
+  (∀ f, (aget f b'.funs).isSome → (aget f b.funs).isSome)
+
+/-- block by block, the first stack declares no name the second does not declare -/
+def StackLE : List Block → List Block → Prop
+  | [], [] => True
+  | b' :: r', b :: r => BlockLE b' b ∧ StackLE r' r
+  | _, _ => False
+
+theorem BlockLE.refl (b : Block) : BlockLE b b := ⟨fun _ h => h, fun _ h => h⟩
+theorem BlockLE.trans {a b c : Block} (h1 : BlockLE a b) (h2 : BlockLE b c) : BlockLE a c :=
+  ⟨fun x h => h2.1 x (h1.1 x h), fun x h => h2.2 x (h1.2 x h)⟩
+
+theorem StackLE.refl : ∀ l : List Block, StackLE l l
+  | [] => trivial
+  | b :: r => ⟨BlockLE.refl b, StackLE.refl r⟩
+
+theorem StackLE.trans : ∀ {a b c : List Block}, StackLE a b → StackLE b c → StackLE a c
+  | [], [], [], _, _ => trivial
+  | _ :: _, _ :: _, _ :: _, h1, h2 => ⟨h1.1.trans h2.1, StackLE.trans h1.2 h2.2⟩
+  | [], [], _ :: _, _, h2 => h2.elim
+  | [], _ :: _, _, h1, _ => h1.elim
+  | _ :: _, [], _, h1, _ => h1.elim
+  | _ :: _, _ :: _, [], _, h2 => h2.elim
+
+theorem StackLE.tail : ∀ {a b : List Block}, StackLE a b → StackLE a.tail b.tail
+  | [], [], _ => trivial
+  | _ :: _, _ :: _, h => h.2
+  | [], _ :: _, h => h.elim
+  | _ :: _, [], h => h.elim
+
+theorem StackLE.length : ∀ {a b : List Block}, StackLE a b → a.length = b.length
+  | [], [], _ => rfl
+  | _ :: _, _ :: _, h => by simp [StackLE.length h.2]
+  | [], _ :: _, h => h.elim
+  | _ :: _, [], h => h.elim
+
+theorem StackLE.getVar {x : Nat} : ∀ {a b : List Block}, StackLE a b → (getVar x a).isSome → (getVar x b).isSome
+  | [], [], _, h => by simp [Scope.getVar] at h
+  | [], _ :: _, h, _ => h.elim
+  | _ :: _, [], h, _ => h.elim
+  | b' :: r', b :: r, h, hv => by
+    simp only [Scope.getVar] at hv ⊢
+    cases hb' : aget x b'.vars with
+    | some v =>
+      have := h.1.1 x (by simp [hb'])
+      cases hb : aget x b.vars with
+      | some w => simp
+      | none => simp [hb] at this
+    | none =>
+      rw [hb'] at hv
+      cases hb : aget x b.vars with
+      | some w => simp
+      | none => exact StackLE.getVar h.2 hv
+
+theorem StackLE.getFn {x : Nat} : ∀ {a b : List Block}, StackLE a b → (getFn x a).isSome → (getFn x b).isSome
+  | [], [], _, h => by simp [Scope.getFn] at h
+  | [], _ :: _, h, _ => h.elim
+  | _ :: _, [], h, _ => h.elim
+  | b' :: r', b :: r, h, hv => by
+    simp only [Scope.getFn] at hv ⊢
+    cases hb' : aget x b'.funs with
+    | some v =>
+      have := h.1.2 x (by simp [hb'])
+      cases hb : aget x b.funs with
+      | some w => simp
+      | none => simp [hb] at this
+    | none =>
+      rw [hb'] at hv
+      cases hb : aget x b.funs with
+      | some w => simp
+      | none => exact StackLE.getFn h.2 hv
+
+theorem setVar_le {x v} : ∀ {bs bs'}, setVar x v bs = some bs' → StackLE bs' bs := by
+  intro bs
+  induction bs with
+  | nil => intro bs' h; simp [setVar] at h
+  | cons b rest ih =>
+    intro bs' h
+    simp only [setVar] at h
+    split at h
+    · cases h
+      exact ⟨⟨fun y hy => by rw [aget_aset_isSome] at hy; exact hy, fun _ hy => hy⟩, StackLE.refl _⟩
+    · split at h
+      · rename_i r hr
+        cases h
+        exact ⟨BlockLE.refl _, ih hr⟩
+      · cases h
+
+theorem disposeVar_le {x} : ∀ {bs bs'}, disposeVar x bs = some bs' → StackLE bs' bs := by
+  intro bs
+  induction bs with
+  | nil => intro bs' h; simp [disposeVar] at h
+  | cons b rest ih =>
+    intro bs' h
+    simp only [disposeVar] at h
+    split at h
+    · cases h
+      exact ⟨⟨fun y hy => aget_adel_some x y _ hy, fun _ hy => hy⟩, StackLE.refl _⟩
+    · split at h
+      · rename_i r hr
+        cases h
+        exact ⟨BlockLE.refl _, ih hr⟩
+      · cases h
+
+theorem disposeFn_le {x} : ∀ {bs bs'}, disposeFn x bs = some bs' → StackLE bs' bs := by
+  intro bs
+  induction bs with
+  | nil => intro bs' h; simp [disposeFn] at h
+  | cons b rest ih =>
+    intro bs' h
+    simp only [disposeFn] at h
+    split at h
+    · cases h
+      exact ⟨⟨fun _ hy => hy, fun y hy => aget_adel_some x y _ hy⟩, StackLE.refl _⟩
+    · split at h
+      · rename_i r hr
+        cases h
+        exact ⟨BlockLE.refl _, ih hr⟩
+      · cases h
+
+theorem declareVar_tail {x v} : ∀ {bs bs'}, declareVar x v bs = some bs' → bs'.tail = bs.tail := by
+  intro bs bs' h
+  cases bs with
+  | nil => simp [declareVar] at h
+  | cons b rest =>
+    simp only [declareVar] at h
+    split at h
+    · cases h
+    · cases h; rfl
+
+theorem declareFn_tail {f d} : ∀ {bs bs'}, declareFn f d bs = .ok bs' → bs'.tail = bs.tail := by
+  intro bs bs' h
+  cases bs with
+  | nil => simp [declareFn] at h
+  | cons b rest =>
+    simp only [declareFn] at h
+    split at h
+    · cases h
+    · split at h
+      · cases h
+      · cases h; rfl
+
+structure LeInv (fuel : Nat) : Prop where
+  eval : ∀ e st, StackLE (evalS fuel e st).2.blocks st.blocks
+  args : ∀ es st, StackLE (evalArgsS fuel es st).2.blocks st.blocks
+  call : ∀ d as st, StackLE (callS fuel d as st).2.blocks st.blocks
+  bind : ∀ ps as st, StackLE (bindParamsS fuel ps as st).2.blocks.tail st.blocks.tail
+  stmt : ∀ s st, StackLE (stmtS fuel s st).2.blocks.tail st.blocks.tail
+  block : ∀ ss st, StackLE (blockS fuel ss st).2.blocks.tail st.blocks.tail
+  ifs : ∀ br els st, StackLE (ifS fuel br els st).2.blocks st.blocks
+  whl : ∀ c body st, StackLE (whileS fuel c body st).2.blocks st.blocks
+
+theorem inBlock_le {α} (f : St → α × St) (st : St)
+    (h : StackLE (f st.push).2.blocks.tail st.push.blocks.tail) :
+    StackLE (inBlock f st).2.blocks st.blocks := by
+  unfold inBlock
+  simpa [St.pop, St.push] using h
+
+theorem leInv : ∀ fuel, LeInv fuel
+  | 0 => by
+    constructor <;> intros <;>
+      simp only [evalS, evalArgsS, callS, bindParamsS, stmtS, blockS, ifS, whileS] <;> exact StackLE.refl _
+  | fuel + 1 => by
+    have ih := leInv fuel
+    constructor
+    · -- eval
+      intro e st
+      cases e with
+      | lit v => simp only [evalS]; exact StackLE.refl _
+      | var x => simp only [evalS]; split <;> exact StackLE.refl _
+      | bin op a b =>
+        simp only [evalS]
+        have h1 := ih.eval a st
+        generalize evalS fuel a st = r at h1 ⊢
+        rcases r with ⟨_ | va, st1⟩
+        · exact h1
+        · cases va with
+          | null => exact h1
+          | int i =>
+            simp only []
+            have h2 := ih.eval b st1
+            generalize evalS fuel b st1 = r at h2 ⊢
+            rcases r with ⟨_ | vb, st2⟩ <;> exact h2.trans h1
+          | tern t =>
+            simp only []
+            have h2 := ih.eval b st1
+            generalize evalS fuel b st1 = r at h2 ⊢
+            rcases r with ⟨_ | vb, st2⟩ <;> exact h2.trans h1
+      | call f args =>
+        simp only [evalS]
+        cases getFn f st.blocks with
+        | none => exact StackLE.refl _
+        | some d =>
+          simp only []
+          split
+          · have h1 := ih.args args st
+            generalize evalArgsS fuel args st = r at h1 ⊢
+            rcases r with ⟨_ | vs, st1⟩
+            · exact h1
+            · exact (ih.call d vs st1).trans h1
+          · exact StackLE.refl _
+    · -- args
+      intro es st
+      cases es with
+      | nil => simp only [evalArgsS]; exact StackLE.refl _
+      | cons e es =>
+        simp only [evalArgsS]
+        have h1 := ih.eval e st
+        generalize evalS fuel e st = r at h1 ⊢
+        rcases r with ⟨_ | v, st1⟩
+        · exact h1
+        · simp only []
+          have h2 := ih.args es st1
+          generalize evalArgsS fuel es st1 = r at h2 ⊢
+          rcases r with ⟨_ | vs, st2⟩ <;> exact h2.trans h1
+    · -- call
+      intro d as st
+      simp only [callS]
+      apply inBlock_le
+      split
+      · have h1 := ih.bind d.params as st.push
+        generalize bindParamsS fuel d.params as st.push = r at h1 ⊢
+        rcases r with ⟨_ | e, s1⟩
+        · simp only []
+          have h2 := ih.block d.body s1
+          generalize blockS fuel d.body s1 = r at h2 ⊢
+          rcases r with ⟨o, s2⟩
+          cases o <;> exact h2.trans h1
+        · exact h1
+      · exact StackLE.refl _
+    · -- bind
+      intro ps as st
+      cases ps with
+      | nil => simp only [bindParamsS]; exact StackLE.refl _
+      | cons p ps =>
+        cases as with
+        | cons a as =>
+          simp only [bindParamsS]
+          cases hd : declareVar p.name a st.blocks with
+          | none => exact StackLE.refl _
+          | some bs =>
+            simp only []
+            have h2 := ih.bind ps as { st with blocks := bs }
+            simp only [declareVar_tail hd] at h2
+            exact h2
+        | nil =>
+          obtain ⟨pn, pd⟩ := p
+          cases pd with
+          | none =>
+            simp only [bindParamsS]
+            cases hd : declareVar pn (.tern .T) st.blocks with
+            | none => exact StackLE.refl _
+            | some bs =>
+              simp only []
+              have h2 := ih.bind ps [] { st with blocks := bs }
+              simp only [declareVar_tail hd] at h2
+              exact h2
+          | some e =>
+            simp only [bindParamsS]
+            have h1 := (ih.eval e st).tail
+            generalize evalS fuel e st = r at h1 ⊢
+            rcases r with ⟨_ | v, st1⟩
+            · exact h1
+            · simp only []
+              cases hd : declareVar pn v st1.blocks with
+              | none => exact h1
+              | some bs =>
+                simp only []
+                have h2 := ih.bind ps [] { st1 with blocks := bs }
+                simp only [declareVar_tail hd] at h2
+                exact h2.trans h1
+    · -- stmt
+      intro s st
+      cases s with
+      | decl x e =>
+        simp only [stmtS]
+        have h1 := (ih.eval e st).tail
+        generalize evalS fuel e st = r at h1 ⊢
+        rcases r with ⟨_ | v, st1⟩
+        · exact h1
+        · simp only []
+          cases hd : declareVar x v st1.blocks with
+          | none => exact h1
+          | some bs => simp only [declareVar_tail hd]; exact h1
+      | assign x e =>
+        simp only [stmtS]
+        have h1 := (ih.eval e st).tail
+        generalize evalS fuel e st = r at h1 ⊢
+        rcases r with ⟨_ | v, st1⟩
+        · exact h1
+        · simp only []
+          cases hd : setVar x v st1.blocks with
+          | none => exact h1
+          | some bs => exact (setVar_le hd).tail.trans h1
+      | dispose x =>
+        simp only [stmtS]
+        cases hd : disposeVar x st.blocks with
+        | none => exact StackLE.refl _
+        | some bs => exact (disposeVar_le hd).tail
+      | print e =>
+        simp only [stmtS]
+        have h1 := (ih.eval e st).tail
+        generalize evalS fuel e st = r at h1 ⊢
+        rcases r with ⟨_ | v, st1⟩ <;> exact h1
+      | ifs br els => simp only [stmtS]; exact (ih.ifs br els st).tail
+      | «while» c body => simp only [stmtS]; exact (ih.whl c body st).tail
+      | brk => simp only [stmtS]; exact StackLE.refl _
+      | cont => simp only [stmtS]; exact StackLE.refl _
+      | exit => simp only [stmtS]; exact StackLE.refl _
+      | ret e =>
+        simp only [stmtS]
+        have h1 := (ih.eval e st).tail
+        generalize evalS fuel e st = r at h1 ⊢
+        rcases r with ⟨_ | v, st1⟩ <;> exact h1
+      | declFn f ps body =>
+        simp only [stmtS]
+        cases hd : declareFn f ⟨ps, body⟩ st.blocks with
+        | error e => exact StackLE.refl _
+        | ok bs => simp only [declareFn_tail hd]; exact StackLE.refl _
+      | disposeFn f =>
+        simp only [stmtS]
+        cases hd : disposeFn f st.blocks with
+        | none => exact StackLE.refl _
+        | some bs => exact (disposeFn_le hd).tail
+    · -- block
+      intro ss st
+      cases ss with
+      | nil => simp only [blockS]; exact StackLE.refl _
+      | cons s rest =>
+        simp only [blockS]
+        have h1 := ih.stmt s st
+        generalize stmtS fuel s st = r at h1 ⊢
+        rcases r with ⟨o, st1⟩
+        cases o <;> first | exact h1 | exact (ih.block rest st1).trans h1
+    · -- ifs
+      intro br els st
+      cases br with
+      | nil =>
+        simp only [ifS]
+        cases els with
+        | nil => exact StackLE.refl _
+        | cons s ss => exact inBlock_le _ _ (ih.block _ _)
+      | cons cb more =>
+        obtain ⟨c, body⟩ := cb
+        simp only [ifS]
+        have h1 := ih.eval c st
+        generalize evalS fuel c st = r at h1 ⊢
+        rcases r with ⟨_ | v, st1⟩
+        · exact h1
+        · simp only []
+          cases v.ternary with
+          | T => exact (inBlock_le _ _ (ih.block body st1.push)).trans h1
+          | F => exact (ih.ifs more els st1).trans h1
+          | U => exact (ih.ifs more els st1).trans h1
+    · -- while
+      intro c body st
+      simp only [whileS]
+      have h1 := ih.eval c st
+      generalize evalS fuel c st = r at h1 ⊢
+      rcases r with ⟨_ | v, st1⟩
+      · exact h1
+      · simp only []
+        cases v.ternary with
+        | T =>
+          simp only []
+          have h2 := (inBlock_le _ _ (ih.block body st1.push)).trans h1
+          generalize inBlock (blockS fuel body) st1 = r at h2 ⊢
+          rcases r with ⟨o, st2⟩
+          cases o <;> first | exact h2 | exact (ih.whl c body st2).trans h2
+        | F => exact h1
+        | U => exact h1
+
+
+/-! ## assignments and lookups -/
+
+theorem setVar_of_getVar {x : Nat} (v : SVal) : ∀ {bs : List Block} {w : SVal}, getVar x bs = some w →
+    ∃ bs', setVar x v bs = some bs'
+  | [], _, h => by simp [getVar] at h
+  | b :: rest, w, h => by
+    simp only [getVar] at h
+    simp only [setVar]
+    cases hb : aget x b.vars with
+    | some u => exact ⟨_, rfl⟩
+    | none =>
+      rw [hb] at h
+      obtain ⟨r, hr⟩ := setVar_of_getVar v h
+      exact ⟨b :: r, by simp [hr]⟩
+
+theorem getVar_setVar_same {x : Nat} {v : SVal} : ∀ {bs bs' : List Block}, setVar x v bs = some bs' →
+    getVar x bs' = some v
+  | [], _, h => by simp [setVar] at h
+  | b :: rest, bs', h => by
+    simp only [setVar] at h
+    cases hb : aget x b.vars with
+    | some u =>
+      rw [hb] at h
+      cases h
+      simp [getVar, aget_aset_same x v b.vars (by simp [hb])]
+    | none =>
+      rw [hb] at h
+      cases hr : setVar x v rest with
+      | none => simp [hr] at h
+      | some r =>
+        simp [hr] at h
+        subst h
+        simp [getVar, hb, getVar_setVar_same hr]
+
+theorem aget_aset_other {α} {x y : Nat} (v : α) (h : y ≠ x) : ∀ (l : List (Nat × α)), aget y (aset x v l) = aget y l
+  | [] => rfl
+  | (z, w) :: rest => by
+    simp only [aset]
+    split
+    · rename_i hz
+      subst hz
+      simp [aget, Ne.symm h]
+    · simp only [aget]
+      split
+      · rfl
+      · exact aget_aset_other v h rest
+
+theorem getVar_setVar_other {x y : Nat} {v : SVal} (hy : y ≠ x) : ∀ {bs bs' : List Block}, setVar x v bs = some bs' →
+    getVar y bs' = getVar y bs
+  | [], _, h => by simp [setVar] at h
+  | b :: rest, bs', h => by
+    simp only [setVar] at h
+    cases hb : aget x b.vars with
+    | some u =>
+      rw [hb] at h
+      cases h
+      simp [getVar, aget_aset_other v hy]
+    | none =>
+      rw [hb] at h
+      cases hr : setVar x v rest with
+      | none => simp [hr] at h
+      | some r =>
+        simp [hr] at h
+        subst h
+        simp [getVar, getVar_setVar_other hy hr]
+
+/-- an assignment to a name the current block declares touches only the current block -/
+theorem setVar_current {x : Nat} (v : SVal) {b : Block} (rest : List Block) (h : (aget x b.vars).isSome) :
+    setVar x v (b :: rest) = some ({ b with vars := aset x v b.vars } :: rest) := by
+  simp only [setVar]
+  cases hb : aget x b.vars with
+  | some u => rfl
+  | none => simp [hb] at h
+
+/-! ## blocks nested `n` deep -/
+
+/-- `body` inside `n` nested `IF TRUE THEN … END IF` -/
+def nest : Nat → List Stmt → List Stmt
+  | 0, body => body
+  | n + 1, body => [.ifs [(.lit (.tern .T), nest n body)] []]
+
+theorem nest_assign (x : Nat) (v : SVal) : ∀ (n k : Nat) (st : St) (bs' : List Block),
+    setVar x v st.blocks = some bs' →
+    blockS (k + 3 * n + 3) (nest n [.assign x (.lit v)]) st = (.normal, { st with blocks := bs' })
+  | 0, k, st, bs', h => by
+    simp [nest, blockS, stmtS, evalS, h]
+  | n + 1, k, st, bs', h => by
+    have hp : setVar x v st.push.blocks = some (Block.empty :: bs') := by
+      simp [St.push, setVar, h]
+    have ih := nest_assign x v n k st.push _ hp
+    have e : k + 3 * (n + 1) + 3 = (k + 3 * n + 3) + 1 + 1 + 1 := by omega
+    rw [e]
+    simp only [nest, blockS, stmtS, ifS]
+    have e2 : k + 3 * n + 3 = (k + 3 * n + 2) + 1 := by omega
+    rw [e2] at ih ⊢
+    simp only [evalS, SVal.ternary, inBlock, ih]
+    simp [St.pop, St.push]
+
+
+/-- WHILE turns BREAK into a normal end and CONTINUE into the next iteration: neither is ever its outcome -/
+theorem whileS_catches : ∀ (fuel : Nat) (c : Expr) (body : List Stmt) (st : St),
+    (whileS fuel c body st).1 ≠ .brk ∧ (whileS fuel c body st).1 ≠ .cont
+  | 0, _, _, _ => by simp [whileS]
+  | f + 1, c, body, st => by
+    simp only [whileS]
+    rcases evalS f c st with ⟨_ | v, st1⟩
+    · simp
+    · simp only []
+      cases v.ternary with
+      | F => simp
+      | U => simp
+      | T =>
+        simp only []
+        rcases inBlock (blockS f body) st1 with ⟨o, st2⟩
+        cases o <;> first | exact whileS_catches f c body st2 | simp
+
+
 end Csvq.Scope
